@@ -55,13 +55,17 @@ REQUIRED = [
     "hist_stale_password_refused",
     "hist_current_password_accepted",
     "hist_password_changes",
+    "keepalive.unauth_after_auth_same_connection",
+    "keepalive.authenticated_requests",
 ]
 RULE = (
     "case = one HTTP request (route instance, method, credential form, XSRF form, Sec-Fetch-Site) or one /updates "
     "WebSocket handshake (credential form, Origin) against the live application in canonical state, or one run-time "
     "history of 3-6 web_password changes (plain / other plain / argon2 hash / empty = new random token / an earlier one; via "
     "options or the HTTP API) each followed by cookie-less requests presenting the current, every previously valid and "
-    "never-valid passwords via Bearer, ?token= and the login form; stage A covers every "
+    "never-valid passwords via Bearer, ?token= and the login form, or one sequence of 2-6 requests on ONE keep-alive connection "
+    "(sequential or pipelined; valid credential via Bearer / ?token= / login form / cookie mixed with none / wrong in every order, "
+    "optionally a credential-less websocket upgrade last); stage A covers every "
     "route x method with every value of each dimension (others at their most permissive), then the full product is "
     "walked in a seeded permutation (completely in the thorough tier if time allows); distinct = distinct (route "
     "pattern, method, credential form, XSRF form, Sec-Fetch-Site) tuple; non-trivial = the policy demands something of "
@@ -173,6 +177,7 @@ def classify(item, status):
 class Plan:
     def __init__(self, rig, seed, tier="quick"):
         self.n_hist = 32 if tier == "quick" else 640
+        self.n_keepalive = 64 if tier == "quick" else 3000
         routes, self.skipped_static = rig.routes()
         self.routes = routes
         self.instances = []  # (route_idx, path, primary)
@@ -252,6 +257,9 @@ class Plan:
         if k < self.n_hist:
             return {"hist": True, "n": k}, "hist"
         k -= self.n_hist
+        if k < self.n_keepalive:
+            return {"keepalive": True, "n": k}, "keepalive"
+        k -= self.n_keepalive
         if k < len(self.stage_a):
             ri, p, m, c, x, s = self.stage_a[k]
             return {"route": ri, "path": p, "method": m, "cred": c, "xsrf": x, "sfs": pol.SFS[s][0], "sfs_class": pol.SFS[s][1]}, "A"
@@ -621,6 +629,116 @@ async def do_history(ctx, rig):
     return kinds, nreq
 
 
+# ---------------------------------------------------------------------------------------------
+# several requests on ONE persistent connection
+# ---------------------------------------------------------------------------------------------
+KA_VALID = ["bearer-right", "query-right", "form-right", "cookie-valid"]
+KA_INVALID = ["none", "none", "none", "bearer-wrong", "query-wrong", "cookie-unsigned", "bearer-truncated", "form-wrong"]
+KA_SAFE_TARGETS = [("GET", "/flows"), ("GET", "/events"), ("GET", "/options.json"), ("GET", "/state.json"), ("GET", "/"), ("HEAD", "/flows")]
+KA_UNSAFE_TARGETS = [("POST", "/clear"), ("PUT", "/options"), ("POST", "/flows/resume"), ("DELETE", "/flows/" + web.FLOW_HTTP), ("POST", "/commands/view.clear")]
+
+
+async def do_keepalive(ctx, rig):
+    """Sequences of requests on one HTTP/1.1 keep-alive connection (sequential or pipelined), mixing requests that
+    carry a valid credential (every channel) with requests that carry none / a wrong one, in every order, optionally
+    ending with a credential-less WebSocket upgrade.  Oracle per request exactly as for single requests: the decision
+    depends only on what THAT request carries."""
+    r = ctx.rng
+    n = r.randint(2, 6)
+    # shapes: make sure "valid then invalid" occurs, but also every other order
+    creds = [r.choice(KA_VALID + KA_INVALID) for _ in range(n)]
+    if r.random() < 0.7:
+        i = r.randrange(n - 1)
+        creds[i] = r.choice(KA_VALID[:3] if r.random() < 0.8 else KA_VALID)
+        creds[i + 1] = r.choice(KA_INVALID)
+    pipelined = r.random() < 0.35
+    ws_tail = r.random() < 0.3
+    steps = []
+    now = int(time.time())
+    for c in creds:
+        valid = c in KA_VALID
+        base = {"form-right": "none", "form-wrong": "none"}.get(c, c)
+        ch, cq, cc = pol.build_cred(base, token=rig.token, secret=rig.cookie_secret, cookie_name=rig.auth_cookie_name, now=now, rng=r)
+        xh, xq, xc, xf = pol.build_xsrf("valid-v1-header", cookie_name=rig.xsrf_cookie_name, now=now, rng=r)
+        if c.startswith("form-"):
+            method, target = "POST", "/"
+            body = urllib.parse.urlencode({"token": rig.token if valid else rig.token[::-1] + "x"}).encode()
+            ctype = "application/x-www-form-urlencoded"
+        else:
+            # in pipelined mode authorised requests are read-only so that one digest comparison around the batch decides
+            pool = KA_SAFE_TARGETS if (valid and pipelined) else (KA_SAFE_TARGETS + KA_UNSAFE_TARGETS if valid else KA_UNSAFE_TARGETS + KA_SAFE_TARGETS[:3])
+            method, target = r.choice(pool)
+            ctype, body = hostile_body(target, method, b"")
+        headers = list(ch) + list(xh) + [("Cookie", "; ".join(f"{k}={v}" for k, v in cc + xc))]
+        if ctype:
+            headers.append(("Content-Type", ctype))
+        if cq:
+            target += "?" + urllib.parse.urlencode(cq)
+        steps.append({"cred": c, "valid": valid, "method": method, "target": target, "headers": headers, "body": body})
+    shape = [("V:" if st["valid"] else "x:") + st["cred"] for st in steps] + (["ws-upgrade-without-credential"] if ws_tail else [])
+    mode = "pipelined" if pipelined else "sequential"
+    ka = web.KeepAlive(rig)
+    await ka.open()
+    auth_seen = False
+    try:
+        if pipelined:
+            before = rig.digest()
+            await ka.send(b"".join(ka.encode(st["method"], st["target"], st["headers"], st["body"]) for st in steps))
+        for idx, st in enumerate(steps):
+            if not pipelined:
+                before = rig.digest()
+                await ka.send(ka.encode(st["method"], st["target"], st["headers"], st["body"]))
+            try:
+                resp = await ka.read_response(st["method"])
+            except (EOFError, asyncio.TimeoutError, ValueError, ConnectionError, asyncio.IncompleteReadError) as e:
+                ctx.count("inconclusive_cases")
+                ctx.seen("client_errors", "keepalive:" + type(e).__name__)
+                return shape, mode
+            ctx.count("keepalive.requests")
+            wit = {"one_connection": shape, "mode": mode, "request_index": idx, "request": f"{st['method']} {st['target'].split('?')[0]}", "cred": st["cred"], "status": resp.status}
+            ctx.seen("statuses", f"keepalive-{'auth' if st['valid'] else 'unauth'}{'-after-auth' if auth_seen else ''}:{resp.status}")
+            if st["valid"]:
+                ctx.count("control")
+                if resp.status not in (403, 500):
+                    auth_seen = True
+                    ctx.count("keepalive.authenticated_requests")
+            else:
+                ctx.count("keepalive.unauth_after_auth_same_connection" if auth_seen else "keepalive.unauth_before_auth")
+                if resp.status != 403:
+                    ctx.violation("unauth-status", dict(wit, body=short(resp.body, 160)))
+                if tag_in(resp.raw) or tag_in(resp.body):
+                    ctx.violation("unauth-discloses-tagged-data", dict(wit, body=short(resp.body, 200)))
+                if any(rig.auth_cookie_name in v for v in resp.header_all("set-cookie")):
+                    ctx.violation("unauth-receives-session-cookie", wit)
+                if not pipelined and rig.digest() != before:
+                    ctx.violation("unauth-changes-state", dict(wit, diff=state_diff(rig)))
+        if pipelined and rig.digest() != before:
+            ctx.violation("unauth-changes-state", {"one_connection": shape, "mode": mode, "diff": state_diff(rig)})
+        if ws_tail:
+            from mitmproxy.tools.web import app as webapp
+
+            key = base64.b64encode(bytes(r.getrandbits(8) for _ in range(16))).decode()
+            await ka.send(ka.encode("GET", "/updates", [("Upgrade", "websocket"), ("Connection", "Upgrade"), ("Sec-WebSocket-Key", key), ("Sec-WebSocket-Version", "13")]))
+            try:
+                resp = await ka.read_response("GET")
+            except (EOFError, asyncio.TimeoutError, ValueError, ConnectionError, asyncio.IncompleteReadError):
+                ctx.count("inconclusive_cases")
+                return shape, mode
+            ctx.count("keepalive.unauth_after_auth_same_connection" if auth_seen else "keepalive.unauth_before_auth")
+            ctx.count("keepalive.ws_upgrade_without_credential")
+            if resp.status != 403 or len(webapp.ClientConnection.connections):
+                ctx.violation("ws-unauth-status", {"one_connection": shape, "mode": mode, "status": resp.status, "registered_connections": len(webapp.ClientConnection.connections)})
+    finally:
+        ka.close()
+        await settle()
+        if rig.digest() != rig.canonical:
+            rig.reset()
+            await settle()
+            if rig.digest() != rig.canonical:
+                raise Inconclusive("harness could not restore the canonical state after a keep-alive history")
+    return shape, mode
+
+
 async def settle():
     for _ in range(5):
         await asyncio.sleep(0)
@@ -648,6 +766,11 @@ async def amain(ctx):
             if item is None:
                 done_all = True
                 break
+            if item.get("keepalive"):
+                shape, mode = await do_keepalive(ctx, rig)
+                ctx.count("stage_keepalive")
+                ctx.case(("keepalive", mode) + tuple(shape), nontrivial=True, sample={"one_connection": shape, "mode": mode})
+                continue
             if item.get("hist"):
                 kinds, nreq = await do_history(ctx, rig)
                 ctx.count("stage_hist")
